@@ -151,7 +151,7 @@ def build(name):
     if filt == 'Madgwick':
         s.batch = lambda g, a, m, q0: only_q(F.Madgwick(gyr=g, acc=a, mag=m).Q if marg else F.Madgwick(gyr=g, acc=a).Q)
         def new():
-            inst = F.Madgwick()
+            inst = F.Madgwick(gain=0.041) if marg else F.Madgwick()     # the data-less default gain is the IMU one; batch MARG uses 0.041
             return (lambda q, g, a, m: inst.updateMARG(q, g, a, m)) if marg else (lambda q, g, a, m: inst.updateIMU(q, g, a))
     elif filt == 'Mahony':
         if marg:
@@ -225,6 +225,22 @@ def run_batch(spec, g, a, m, q0):
     return ('done', Q, extra)
 
 
+def _instance_of(step):
+    """The live filter object captured by a streaming closure."""
+    for c in (step.__closure__ or ()):
+        v = c.cell_contents
+        if type(v).__module__.startswith('ahrs.'):
+            return v
+    return None
+
+
+def _scalars(inst):
+    """Scalar configuration attributes (gains, rates, flags, names) of a filter object."""
+    if inst is None:
+        return {}
+    return {k: v for k, v in vars(inst).items() if isinstance(v, (int, float, str, bool)) or v is None}
+
+
 def run_stream(spec, q_init, g, a, m, faulted):
     """One update call per row, starting from q_init, on a fresh data-less instance.
 
@@ -236,6 +252,10 @@ def run_stream(spec, q_init, g, a, m, faulted):
         step = spec.new_stream()
     except Exception as ex:
         return ('error', -1, f'{type(ex).__name__}: {ex}'[:240])
+    inst = _instance_of(step)
+    spec.params_before = _scalars(inst)
+    spec.params_after = None
+    spec.live_instance = inst
     out = np.full((len(g), 4), np.nan)
     q = np.array(q_init, float)
     refused = []
@@ -262,6 +282,7 @@ def run_stream(spec, q_init, g, a, m, faulted):
             break
         out[t] = qn
         q = qn
+    spec.params_after = _scalars(inst)
     return ('done', out, refused)
 
 
@@ -301,6 +322,7 @@ def base_run(spec, entry, att):
         return g, a, m, Qt, q0, ('error', 'no initial estimate: the batch run on the clean record failed: ' + str(rb[1])[:160]), None, None, None
     q_init = rb[1][0].copy()
     rs = run_stream(spec, q_init, g, a, m, ())
+    spec.base_params = (spec.params_before, spec.params_after)
     if rs[0] != 'done':
         return g, a, m, Qt, q0, ('error', f'row {rs[1]}: {rs[2]}'), None, None, q_init
     return g, a, m, Qt, q0, rs, rs[1], None, q_init
@@ -377,6 +399,12 @@ def evaluate(ctx, spec, entry, att, fault, key, g, a, m, q0, Qb, base_unit, q_in
         refused = []
     else:
         res = run_stream(spec, q_init, gf, af, mf, set(rows))
+        # a dropout must not leave the filter's own settings (gains, rates, flags) different from what a clean record leaves
+        b0, b1 = getattr(spec, 'base_params', ({}, None))
+        f0, f1 = spec.params_before, spec.params_after
+        if b1 is not None and f1 is not None:
+            changed = {k: [f0.get(k), f1.get(k)] for k in b0 if b0[k] == b1.get(k) and f1.get(k) != f0.get(k)}
+            ctx.expect(not changed, site(spec, 'scalar settings of the filter object are the same after the dropout history as after the clean history'), key, changed, 'unchanged')
         if res[0] == 'error':
             ctx.cls('outcome:other-exception')
             ctx.outcome((name, entry, 'error', res[2].split(':')[0]))
